@@ -66,6 +66,34 @@ structure Laws (c : Comp σ π) (Good : Board → Prop) : Prop where
   ok_failHigh : ∀ ps d b p hs, PsInv.ok ps → PsInv.ok (c.failHigh ps d b p hs)
   ok_nextGen : ∀ ps, PsInv.ok ps → PsInv.ok (c.nextGen ps)
 
+/-- The first version of `Laws` had no state invariant, no restriction on the hash move and
+    `good_make` at every clock value.  Components that satisfy that unconditional form (e.g.
+    `demoComp`) satisfy the present one for every invariant that holds of all states — so every
+    theorem stated with `Laws` specialises to its first-version statement (take `PsInv.ok := fun _ => True`). -/
+theorem Laws.of_unconditional {c : Comp σ π} {Good : Board → Prop} (hok : ∀ ps : σ, PsInv.ok ps)
+    (undo_make : ∀ b m, Good b → m ∈ MoveGen.gen b → (b.makeMove c.keys m).1.undoMove m (b.makeMove c.keys m).2 = b)
+    (good_make : ∀ b m, Good b → m ∈ MoveGen.gen b → (b.makeMove c.keys m).1.inCheck b.stm = false →
+      Good (b.makeMove c.keys m).1)
+    (undo_null : ∀ b, Good b → b.inCheck b.stm = false → (b.makeNull c.keys).1.undoNull (b.makeNull c.keys).2 = b)
+    (good_null : ∀ b, Good b → b.inCheck b.stm = false → Good (b.makeNull c.keys).1)
+    (pick_mem : ∀ ps b hs hm p ys m p', Good b → Reach c b hm p ys → c.pickNext ps b hs p = some (m, p') →
+      m ∈ MoveGen.gen b)
+    (pick_complete : ∀ ps b hs hm p ys, Good b → Reach c b hm p ys → c.pickNext ps b hs p = none →
+      ∀ m, m ∈ MoveGen.gen b → m ∈ ys)
+    (q_mem : ∀ ps b hs m w, Good b → (m, w) ∈ c.qMoves ps b hs → m ∈ MoveGen.gen b)
+    (gen_ne_zero : ∀ b m, Good b → m ∈ MoveGen.gen b → m ≠ 0) : Laws c Good where
+  undo_make := undo_make
+  good_make := fun b m hg _ hm hs => good_make b m hg hm hs
+  undo_null := undo_null
+  good_null := good_null
+  pick_mem := fun ps b hs hm p ys m p' hg _ hr _ hp => pick_mem ps b hs hm p ys m p' hg hr hp
+  pick_complete := fun ps b hs hm p ys hg _ hr _ hp => pick_complete ps b hs hm p ys hg hr hp
+  q_mem := q_mem
+  gen_ne_zero := gen_ne_zero
+  ok_store := fun _ _ _ _ _ _ _ _ _ _ => hok _
+  ok_failHigh := fun _ _ _ _ _ _ => hok _
+  ok_nextGen := fun _ _ => hok _
+
 /-- A line of moves each playable (generated, own king not left attacked) in turn. -/
 inductive LegalLine (K : Keys) : Board → List Move → Prop where
   | nil {b} : LegalLine K b []
